@@ -3,7 +3,9 @@ package actionlint
 import (
 	"fmt"
 	"sort"
+	"strconv"
 	"strings"
+	"unicode"
 )
 
 // Types
@@ -264,7 +266,13 @@ func (ty *ObjectType) String() string {
 		} else {
 			b.WriteString("; ")
 		}
-		b.WriteString(p)
+		if strings.IndexFunc(p, func(r rune) bool { return !unicode.IsPrint(r) }) >= 0 {
+			// Keys can be arbitrary strings (e.g. keys of matrix or JSON). Do not put line breaks or
+			// control characters in error messages as-is
+			b.WriteString(strconv.Quote(p))
+		} else {
+			b.WriteString(p)
+		}
 		b.WriteString(": ")
 		b.WriteString(ty.Props[p].String())
 	}
